@@ -436,7 +436,7 @@ func svcEndpointJSON(id, mark string) string {
 // must format (fractions, exponents, negative values) - every hash in the system runs over this content.
 var (
 	svcTypes      = []string{"SimSvc", "OtherSvc", "Dienst-\u00fc\u20ac", "LinkedDomains"}
-	svcPriorities = []string{"1", "0", "10", "2.5", "1e21", "0.000001", "-3", "4.0E+2"}
+	svcPriorities = []string{"1", "0", "10", "2.5", "1e21", "0.000001", "-3", "4.0E+2", "1704153615000", "1704153619000", "123456789012345680000", "9007199254740991"}
 	svcNotes      = []string{"", "", `"\u03c0 \u2260 3,14 \"quoted\" back\\slash tab\t end"`, `"\ud83d\ude00 <b>&amp;</b>"`}
 )
 
@@ -444,7 +444,7 @@ func svcJSON(id, mark string) string {
 	h := idMarkHash(id, mark)
 	s := fmt.Sprintf(`{"id":%q,"type":"%s","serviceEndpoint":%s`, id, svcTypes[(h/3)%len(svcTypes)], svcEndpointJSON(id, mark))
 
-	if len(mark)%2 == 0 {
+	if (h/17)%3 != 0 {
 		s += `,"priority":` + svcPriorities[(h/5)%len(svcPriorities)]
 	}
 
